@@ -402,14 +402,14 @@ def check(run):
                 "guarded input or the result of a conversion of the original input; (R09c) error discipline of each "
                 "branch; (R09d) operator methods build the combinator they denote and the construction algebra "
                 "(double negation, dedupe, Any, collapse, flatten) is present.")
-    r09(run)
-    r09d(run)
-    r09e(run)
-    r09f(run)
+    run.rule(r09, run)
+    run.rule(r09d, run)
+    run.rule(r09e, run)
+    run.rule(r09f, run)
     # shared with C10: each argument is tried in a layer of its own only if enter() really opens one
     from . import c10
     run.rules_run += ["R10g", "R10c"]
-    c10.r10g(run)
+    run.rule(c10.r10g, run)
     # the ~ and ^ branches raise their violation inside the try that swallows argument failures: only the entry that
     # handle_error records before raising makes the final raise_error() reject
-    c10.r10c(run)
+    run.rule(c10.r10c, run)
